@@ -253,6 +253,10 @@ class Socket(base_socket.BaseSocket):
                 # the connection properly
                 self.server.logger.exception('Unknown receive error')
                 break
+            if self.closed:
+                # the session ended (CLOSE packet, or closed by another task):
+                # do not process anything else that was received on this socket
+                break
 
         self.queue.put(None)  # unlock the writer task so that it can exit
         writer_task.join()
